@@ -862,7 +862,14 @@ func (g *genCtx) sharedLaterInput(n *node) (coin.Transaction, coin.Transaction, 
 	p := g.r.Intn(len(ok))
 	shared, a0, b0 := ok[p], ok[(p+1)%len(ok)], ok[(p+2)%len(ok)]
 	mk := func(first coin.UxOut) coin.Transaction {
+		// the shared output sits at a random position (first / last / alone) of each transaction
 		ins := coin.UxArray{first, shared}
+		switch g.r.Intn(3) {
+		case 0:
+			ins = coin.UxArray{shared, first}
+		case 1:
+			ins = coin.UxArray{shared}
+		}
 		var coins, hours uint64
 		for _, u := range ins {
 			coins += u.Body.Coins
